@@ -607,6 +607,25 @@ def run(ctx):
         for oname, what in compare(out0, out1, c, 1e-6):
             ctx.violation('scale/%s/%s' % (cls, oname), '%s, %s: %s' % (cls, oname, what), rep)
 
+    # ---------------- every NAMED window once per class that takes one (a change may concern one name only)
+    for wi, wname in enumerate(E.ALL_WINDOWS):
+        for cls in ('Periodogram', 'pcorrelogram'):
+            cplx = bool(wi % 2); N = 20 + wi % 9; x, kind = gen(rng, N, cplx)
+            cfg = {'window': wname} if cls == 'Periodogram' else {'lag': 4 + wi % 5, 'window': wname}
+            NFFT = [N, N + 3, 2 * N][wi % 3]; sampling = 1.0; c = rand_scalar(rng, cplx); tag = 'complex' if cplx else 'real'
+            ctx.count('search/windows/%s' % cls)
+            ctx.case(('cls-window', cls, wname, NFFT, x.tobytes(), str(c)), nontrivial=True,
+                     sample={'estimator': cls + ' (every named window)', 'window': wname, 'N': N, 'NFFT': NFFT, 'c': str(c)} if wi == 9 else None)
+            rep = {'form': 'class', 'estimator': cls, 'cfg': jcfg(cfg), 'NFFT': NFFT, 'sampling': sampling,
+                   'x': vlib.hexv(np.asarray(x, dtype=complex)), 'datatype': tag, 'c': [float(np.real(c)).hex(), float(np.imag(c)).hex()], 'route': 'fresh'}
+            try:
+                out0 = class_outputs(cls, x, cfg, NFFT, sampling); out1 = class_outputs(cls, c * x, cfg, NFFT, sampling)
+            except Exception as e:
+                ctx.violation('scale/%s/raises/window_%s' % (cls, wname), '%s with window %r raises %s: %s' % (cls, wname, type(e).__name__, str(e)[:80]), rep)
+                continue
+            for oname, what in compare(out0, out1, c, 1e-6):
+                ctx.violation('scale/%s/%s/window_%s' % (cls, oname, wname), '%s, window %r, %s: %s' % (cls, wname, oname, what), rep)
+
     # ---------------- arma_estimate (the model of C15, which the ma / arma_estimate / parma theorems are about) at scaled inputs:
     # c*x is built inside Coq from the low-bit data, the implementation is called on the numerically scaled array (dyadic c: exact)
     from props import _c03_arma_corr as AC
